@@ -347,11 +347,20 @@ def registerInternalWith (req : Req) (s : Repo) (source : Str) (lazy : Bool) (tl
                    staleKey := s1.staleKey || decide (l.tl.hdr ≠ tl.hdr) }, .ok tl)
       | none => ({ s1 with typelibs := insertTbl s1.typelibs source tl }, .ok tl)
 
+/-- what `require_internal` holds after the search: the mapped file (its path and header) and
+    `tmp_version`, the version its FILE NAME stands for — the requested one (`g_strdup (version)`)
+    or the version string of the elected candidate -/
+structure Mapped where
+  path : Str
+  hdr : Hdr
+  version : Str
+  deriving DecidableEq, Repr
+
 /-- the file `require_internal` maps: the exact one when a version is given, else the elected -/
-def findFile (fs : FS) (ns : Str) (ver : Option Str) (path : List Str) : Option Found :=
+def findFile (fs : FS) (ns : Str) (ver : Option Str) (path : List Str) : Option Mapped :=
   match ver with
-  | some v => findVersion fs ns v path
-  | none => (findLatest fs ns path).map (fun c => ⟨c.path, c.hdr⟩)
+  | some v => (findVersion fs ns v path).map (fun f => ⟨f.path, f.hdr, v⟩)
+  | none => (findLatest fs ns path).map (fun c => ⟨c.path, c.hdr, c.version⟩)
 
 /-- `require_internal`.  `fuel` bounds the depth of the dependency recursion (the C code has
     no bound: cyclic dependencies recurse until the stack is exhausted).  The nested requires
@@ -370,7 +379,7 @@ def requireInternal (fs : FS) : Nat → Repo → Str → Option Str → Bool →
         let tl : Typelib := ⟨s.nextId, f.hdr⟩
         let s0 := { s with nextId := s.nextId + 1 }
         if f.hdr.ns ≠ ns then (s0, .error .mismatch)
-        else if (match ver with | some v => f.hdr.ver != v | none => false) then (s0, .error .mismatch)
+        else if f.hdr.ver ≠ f.version then (s0, .error .mismatch)
         else
           registerInternalWith
             (fun s' dn dv => requireInternal fs fuel s' dn (some dv) false s'.searchPath)
@@ -384,15 +393,18 @@ def require (fs : FS) (fuel : Nat) (s : Repo) (ns : Str) (ver : Option Str) (laz
 def requirePrivate (fs : FS) (fuel : Nat) (s : Repo) (dir ns : Str) (ver : Option Str) (lazy : Bool) :=
   requireInternal fs fuel s ns ver lazy [dir]
 
-/-- `g_typelib_new_from_memory` + `g_irepository_load_typelib`.  The branch that would report
-    a version conflict is unreachable in the C code (`version_conflict` is only set when
-    `get_registered_status` returns NULL), so a typelib of another version is registered. -/
+/-- `g_typelib_new_from_memory` + `g_irepository_load_typelib`: registered at this version ⇒ the
+    namespace is returned and the new typelib is not registered; registered at another version
+    (`version_conflict` set by the failed lookup) ⇒ NAMESPACE_VERSION_CONFLICT; else registration
+    under "<builtin>".  (A LAZILY registered namespace is not looked at without the LAZY flag:
+    `.absent true`, see `registerInternalWith`.) -/
 def loadTypelib (fs : FS) (fuel : Nat) (s : Repo) (hdr : Hdr) (lazy : Bool) : Repo × Except Err Typelib :=
   let tl : Typelib := ⟨s.nextId, hdr⟩
   let s0 := { s with nextId := s.nextId + 1 }
   match getRegisteredStatus s0 hdr.ns (some hdr.ver) lazy with
   | .found t => (s0, .ok t)
-  | _ =>
+  | .conflict _ => (s0, .error .versionConflict)
+  | .absent _ =>
     registerInternalWith
       (fun s' dn dv => requireInternal fs fuel s' dn (some dv) false s'.searchPath)
       s0 builtinSource lazy tl
